@@ -1,37 +1,6 @@
 package diam
 
-import (
-	"net"
-)
-
 // C15: faults on one connection stay on that connection.
-
-type zzAccept struct {
-	c   net.Conn
-	err error
-}
-
-// zzTempErr is a transient accept failure: temporary, and either a timeout or not (EMFILE / ENFILE /
-// EINTR are temporary without being timeouts)
-type zzTempErr struct{ timeout bool }
-
-func (zzTempErr) Error() string   { return "zz: temporary accept error" }
-func (e zzTempErr) Timeout() bool { return e.timeout }
-func (zzTempErr) Temporary() bool { return true }
-
-type zzListener struct {
-	ch      chan zzAccept
-	accepts int
-	closed  bool
-}
-
-func (l *zzListener) Accept() (net.Conn, error) {
-	l.accepts++
-	a := <-l.ch
-	return a.c, a.err
-}
-func (l *zzListener) Close() error   { l.closed = true; return nil }
-func (l *zzListener) Addr() net.Addr { return zzNamedAddr{"192.0.2.10:3868"} }
 
 // zzC15_faults: Server.Serve on an in-memory listener; a faulty connection A (handler panic at message
 // i / malformed message / abrupt EOF between messages or inside a body), a healthy connection B, 0..2 temporary accept errors and a
